@@ -10,32 +10,34 @@
 (*     semicolon forms, the shared reset of bold and dim.                   *)
 EXTENDS DeltaEnc, TLC, FiniteSets
 
-CONSTANT Families      \* set of [legacy, at, fg, bg, ul, us]: style families whose pairs are explored
+CONSTANT Families      \* set of [legacy, at, fg, bg, ul, us, ln]: style families whose pairs are explored
 
 AllAttrs == 0..127
 Classes1 == {0, 4, 13, 201, 16843009}         \* default, 0-7, 8-15, 16-255, direct: one of each class
 Classes2 == {0, 1, 16, 17, 33554431}          \* ... class boundaries
 Classes3 == {0, 8, 9, 256, 16777216}
 
-Fam(lg, at, fg, bg, ul, us) == [legacy |-> lg, at |-> at, fg |-> fg, bg |-> bg, ul |-> ul, us |-> us]
+Fam(lg, at, fg, bg, ul, us) == [legacy |-> lg, at |-> at, fg |-> fg, bg |-> bg, ul |-> ul, us |-> us, ln |-> {0}]
+(* hyperlink pairs (none, two URIs) beside style changes *)
+LinkFam == [Fam(FALSE, {0, 1, 3}, {0, 4, 16843009}, {0}, {0}, {0, 3}) EXCEPT !.ln = {0, 1, 2}]
 QuickFamilies == {
   Fam(FALSE, AllAttrs, {0}, {0}, {0}, {0, 3}),              \* all 128 x 128 attribute masks (x underline on/off)
   Fam(FALSE, {0}, Classes1, Classes2, Classes3, {0, 3}),    \* all colour-class pairs per channel
-  Fam(TRUE, {0, 1, 2, 3}, Classes1, Classes2, {0, 256}, {0}) }
+  Fam(TRUE, {0, 1, 2, 3}, Classes1, Classes2, {0, 256}, {0}), LinkFam }
 DeepFamilies == {
   Fam(FALSE, AllAttrs, {0, 10}, {0}, {0, 16777216}, {0, 3}),
   Fam(FALSE, {0}, Classes1, Classes2, Classes3, 0..5),
-  Fam(TRUE, {0, 1, 2, 3}, Classes1, Classes2, {0, 256, 16777216}, {0}) }
+  Fam(TRUE, {0, 1, 2, 3}, Classes1, Classes2, {0, 256, 16777216}, {0}), LinkFam }
 
 StylesOf(f) == [fg : f.fg, bg : f.bg, ul : f.ul, us : f.us, at : f.at]
 
-VARIABLES fam, prev, next, paired
-vars == <<fam, prev, next, paired>>
+VARIABLES fam, prev, next, prevL, nextL, paired
+vars == <<fam, prev, next, prevL, nextL, paired>>
 
 (* Two steps so that TLC's workers share the pairs: an initial state per    *)
 (* previous style, one successor per next style.                            *)
-Init == fam \in Families /\ prev \in StylesOf(fam) /\ next = prev /\ paired = FALSE
-Next == ~paired /\ paired' = TRUE /\ UNCHANGED <<fam, prev>> /\ next' \in StylesOf(fam)
+Init == fam \in Families /\ prev \in StylesOf(fam) /\ next = prev /\ prevL \in fam.ln /\ nextL = prevL /\ paired = FALSE
+Next == ~paired /\ paired' = TRUE /\ UNCHANGED <<fam, prev, prevL>> /\ next' \in StylesOf(fam) /\ nextL' \in fam.ln
 Spec == Init /\ [][Next]_vars
 
 D == Delta(prev, next, fam.legacy)
@@ -43,6 +45,8 @@ DeltaOK == ApplyAll(prev, D, 1) = next
 DeltaWF == \A i \in 1..Len(D) : WellFormed(D[i])
 CloseOK == ApplyAll(next, Closing(next), 1) = DefaultPen
 Quiet == prev = next => D = <<>>
+LinkOK == LinkAfter(prevL, LinkDelta(prevL, nextL)) = nextL /\ (prevL = nextL => LinkDelta(prevL, nextL) = <<>>)
+LinkCloseOK == LinkAfter(nextL, LinkClosing(nextL)) = 0
 
 PenOK(p) == /\ p.at \in 0..127 /\ p.us \in 0..5
             /\ \A c \in {p.fg, p.bg, p.ul} : c = 0 \/ c \in 1..256 \/ c \in RGBBase..(RGBBase + 16777215)
